@@ -218,6 +218,12 @@ Error BaseRAPass::run_on_function(Arena& arena, FuncNode* func, [[maybe_unused]]
   // Must be called regardless of the allocation status.
   on_done();
 
+  // Reset pass data of all nodes of the function - label nodes point to `RABlock`s allocated by `arena`, which is
+  // reset below, so no node must keep a dead pointer after the RA pass is complete.
+  for (BaseNode* node = func; node && node != _stop; node = node->next()) {
+    node->reset_pass_data();
+  }
+
   // Reset possible connections introduced by the register allocator.
   RAPass_reset_virt_reg_data(this);
 
